@@ -31,7 +31,13 @@ def mixes():
     delta_src = [reg("v%02d" % i, 300 + i, 120000 + 20011 * (i % 7)) for i in range(16)]
     delta_dst = [dict(reg("v%02d" % i, 400 + i, 120000 + 20011 * (i % 7), mt=900), of=300 + i, ofsz=120000 + 20011 * (i % 7), ed="rep:%d:%d" % (5000 + 777 * i, 64))
                  for i in range(16)]
-    return {"tiny": (tiny, []), "literal": (lit, []), "sums": (sums_src, sums_dst), "mixed": (mixed, mixed_dst), "delta": (delta_src, delta_dst)}
+    # entries of other types in the way of regular files (a named pipe nobody writes to, a socket, symlinks - dangling and
+    # to a directory -, a directory): making room for them must not block on them
+    def other(p, t, tgt=""):
+        return {"p": p, "t": t, "c": 0, "sz": 0, "mt": 900, "ns": 0, "perm": 0o644 if t != "dir" else 0o755, "tgt": tgt}
+    inway_src = [reg("w%d" % i, 500 + i, 3000 + 700 * i) for i in range(7)]
+    inway_dst = [other("w0", "fifo"), other("w1", "lnk", "nowhere"), other("w2", "dir"), other("w3", "sock"), other("w4", "lnk", "w2"), reg("w5", 507, 3000 + 700 * 5, mt=900)]
+    return {"tiny": (tiny, []), "literal": (lit, []), "sums": (sums_src, sums_dst), "mixed": (mixed, mixed_dst), "delta": (delta_src, delta_dst), "inway": (inway_src, inway_dst)}
 
 
 WIRE_CFG = "SPECIFICATION WSpec\nCONSTANTS\n NF = %d\n NSums = 1\n NToks = 1\n CapUp = %d\n CapDown = %d\n SplitGenRcv = TRUE\nCHECK_DEADLOCK FALSE\n"
@@ -318,7 +324,7 @@ def check(w):
         "capacity_pairs_model_checked": pairs, "capacity_runs": len(capt), "fault_runs": sum(1 for t in capt if t["kind"] == "caperr"), "concurrent_scenarios": len(conct), "concurrent_sessions": sum(len(t["results"]) for t in conct),
         "evaluations": len(traces), "distinct_nontrivial": sum(1 for t in capt if t["_scn"].get("capup") in (-2, 1, 17) or t["_scn"].get("capdown") in (-2, 1, 17)) + len(conct),
         "rule": "cap: a real client <-> real server transfer (library pull and push; local copy over io.Pipe) over a transport with capacity {rendezvous, 1 B, 17 B, 64 KiB, unbounded} per direction, read chunking {1, 3, 7, 4096 B} and random yields, "
-                "on trees of 150 tiny files / a 2 MiB literal / a 2 MiB file with a full checksum list / a mix / 16 files that each exist as an earlier version (block references); conc: 2..32 simultaneous pulls, pushes or both against one daemon, distinct and identical targets, empty destinations and destinations holding earlier versions, GOMAXPROCS 1/2/16, race detector on; "
+                "on trees of 150 tiny files / a 2 MiB literal / a 2 MiB file with a full checksum list / a mix / 16 files that each exist as an earlier version (block references) / files with a fifo, socket, symlinks and a directory in their way; conc: 2..32 simultaneous pulls, pushes or both against one daemon, distinct and identical targets, empty destinations and destinations holding earlier versions, GOMAXPROCS 1/2/16, race detector on; "
                 "non-trivial = a bounded capacity in at least one direction, or a concurrent scenario",
         "action_coverage": cov, "negative_controls": len(bad) + len(wbad), "mutant_deadlocks_in_model": True,
         "action_level_traces": len(wtr), "action_level_events": sum(len(t["events"]) for t in wtr), "action_level_rendezvous_traces": sum(1 for t in wtr if t["cu"] == 0 or t["cd"] == 0),
